@@ -1,12 +1,12 @@
 package main
 
 import (
-	"os"
 	"context"
 	"encoding/json"
 	"errors"
 	"fmt"
 	"math/big"
+	"os"
 	"sort"
 	"strings"
 	"sync"
@@ -79,7 +79,7 @@ func script(r Req, p string) ledger.RunScript {
 	decl := []string{}
 	aliasUse := []string{}
 	srcExpr := func(i int, a string) string {
-		if a == "world" {
+		if a == "world" && r.Mode != "wvar" {
 			return "@world"
 		}
 		switch {
@@ -92,7 +92,8 @@ func script(r Req, p string) ledger.RunScript {
 			vars[owner], vars[name] = real(a), real(a)
 			aliasUse = append(aliasUse, fmt.Sprintf("set_tx_meta(\"owner%d\", $%s)\n", i, owner))
 			return "$" + name
-		case r.Mode == "var":
+		case r.Mode == "var" || r.Mode == "wvar": // "wvar": every source is a variable, @world included, so that
+			// requests drawing on different accounts share one script text (and one compiled program)
 			name := fmt.Sprintf("s%d", i)
 			decl = append(decl, fmt.Sprintf("\taccount $%s\n", name))
 			vars[name] = real(a)
@@ -136,6 +137,10 @@ func script(r Req, p string) ledger.RunScript {
 		sb.WriteString("vars {\n" + strings.Join(decl, "") + "}\n")
 	}
 	sb.WriteString(strings.Join(aliasUse, ""))
+	if r.Mode == "var" || r.Mode == "alias" {
+		// a statement with no effect on the ledger that the engine must still serve
+		sb.WriteString("print [USD 1]\n")
+	}
 	sb.WriteString(body.String())
 	if r.Kind == "create" && r.Mval == "am" {
 		// one account of the postings and one the transaction does not touch
@@ -179,6 +184,8 @@ func classify(err error) string {
 		return "negative-amount"
 	case errors.Is(err, &machine.ErrMissingMetadata{}):
 		return "missing-metadata"
+	case strings.Contains(err.Error(), "verif: store read failed"):
+		return "read-failed"
 	case strings.Contains(err.Error(), "already taken"):
 		return "ik-taken"
 	case strings.Contains(err.Error(), "locking accounts"):
